@@ -39,6 +39,19 @@ theorem source_regex_literals : CmGen.CliSrc.regex_literals =
     [("resolve_variable", "re.compile", "var\\((--[\\w-]+)(?:\\s*,\\s*(.*))?\\)"),
      ("process_nodes_recursive", "re.search", "var\\((--[\\w-]+)\\)")] := rfl
 
+/-- what `main` prints after the per-file loop (fixed-wording lines aside): each of the three counters under its own label and only
+    when positive, the rules needing attention listed by file and selector from `failed_details`, and the HTML report generated from
+    `fixed_details` exactly when something was adjusted -/
+theorem source_report_section : CmGen.CliSrc.report_section =
+    [("stats[\"accessible\"] > 0", "click.secho", "f\"✓ {stats['accessible']} color pairs already readable\""),
+     ("stats[\"tuned\"] > 0", "click.secho", "f\"✓ {stats['tuned']} color pairs adjusted for better readability\""),
+     ("stats[\"failed\"] > 0", "click.secho", "f\"✗ {stats['failed']} color pairs need your attention\""),
+     ("stats[\"failed\"] > 0", "click.echo", "f\"Could not tune {stats['failed']} color pairs:\""),
+     ("stats[\"failed\"] > 0 and for fail in stats[\"failed_details\"]", "click.echo", "f\" {fail['file']} -> {fail['selector']}\""),
+     ("stats[\"failed\"] > 0 and for fail in stats[\"failed_details\"] and reason", "click.echo", "f\" Reason: {reason}\""),
+     ("stats[\"tuned\"] > 0", "generate_report", "stats[\"fixed_details\"]"),
+     ("stats[\"tuned\"] > 0", "click.echo", "f\"Report generated: {report_path}\"")] := rfl
+
 /-! The model dispatches on exactly these literals. -/
 
 /-- custom properties live in rules whose selector is `:root` or `html` -/
